@@ -323,8 +323,7 @@ func (db *Database) master() ([]sqliteMaster, error) {
 	}
 
 	var objects []sqliteMaster
-	defer db.startWalk()()
-	_, err = master.Iter(maxRecursion, db, func(rowid int64, pl cellPayload) (bool, error) {
+	_, err = master.Iter(maxRecursion, db.traversal(), func(rowid int64, pl cellPayload) (bool, error) {
 		c, err := addOverflow(db, pl)
 		if err != nil {
 			return false, err
@@ -407,12 +406,15 @@ func (db *Database) openPage(page int) (interface{}, error) {
 // without ever exceeding maxRecursion.
 type treeWalk map[int]struct{}
 
-// startWalk begins a tree traversal. The returned function ends it. Traversals
-// nest: callbacks start lookups in other trees.
-func (db *Database) startWalk() func() {
-	prev := db.walk
-	db.walk = treeWalk{}
-	return func() { db.walk = prev }
+// traversal gives the view of the database one tree traversal works on: the
+// same file, caches and header, with its own record of the interior pages
+// visited. Traversals nest (callbacks start lookups in other trees) and a
+// handle can be misused from several goroutines: each traversal keeps its
+// record to itself.
+func (db *Database) traversal() *Database {
+	t := *db
+	t.walk = treeWalk{}
+	return &t
 }
 
 // descend notes that the running traversal goes into interior page n.
